@@ -982,6 +982,10 @@ MDSDRV_Converter::MDSDRV_Converter(Song& song)
 			parse_track(id);
 	}
 
+	// the header (track table, pointer table, data slots) is addressed with 16-bit offsets
+	if(4 + (4 * track_list.size()) + (subroutine_list.size() + macro_track_list.size() + used_data_map.size()) * 2 > 0xffff)
+		throw InputError(nullptr, "MDSDRV: sequence header too large (too many subroutines, macro tracks, instruments or envelopes)");
+
 	uint16_t track_header_offset = 4;
 	uint16_t track_count = 0;
 	uint16_t data_base = 4 + (4 * track_list.size());
